@@ -7,6 +7,7 @@ CLASSES = {
   ('X03-inline-recursion', r'^crash:special/inline-(recursion|mutual)$', "an inline function that calls itself leaves an unresolved label: check_branches reaches unreachable!()", r'unreachable'),
  ],
  'C13': [
+  ('A02-user-label-namespace', r'^noasm:special/user-label-(for1|ifend1|while1)', "a user label that spells like a generated one (`for1:`, `ifend1:`, `while1:` next to a for / if / while of the same function) is emitted as the same `.for1`: defined twice; user labels share the namespace of generated labels"),
   ('A01-store-immediate', r'^noasm:(expr/chain16|deep/asg/wa=\(va=vb\))', "wa = (va = vb): the high byte of the 16-bit destination is stored from the constant 0 as `STA #0`, which the 6502 does not have (asm() passes STA with an Immediate operand through; same defect as C01 K16)"),
  ],
  'C09': [
